@@ -16,6 +16,7 @@ import (
 
 	"github.com/zmap/zcrypto/x509"
 	"github.com/zmap/zlint/v3/lint"
+	"github.com/zmap/zlint/v3/util"
 	"golang.org/x/crypto/cryptobyte"
 	cbasn1 "golang.org/x/crypto/cryptobyte/asn1"
 )
@@ -102,6 +103,46 @@ func subDER(out string, seed uint64, tier string, arg string) {
 		doRead(b)
 	}
 
+	// --- CA classification (util/ca.go) on the four combinations of the two fields it reads, as struct values and as
+	// parsed kit certificates (CA / leaf, genuinely self-signed / issued)
+	b2 := func(b bool) string {
+		if b {
+			return "1"
+		}
+		return "0"
+	}
+	for _, ca := range []bool{false, true} {
+		for _, ss := range []bool{false, true} {
+			c := &x509.Certificate{IsCA: ca, SelfSigned: ss}
+			emitRaw := func(tag string, c *x509.Certificate) {
+				line := fmt.Sprintf("caclass\t%s\t%s", b2(c.IsCA), b2(c.SelfSigned))
+				res := b2(util.IsRootCA(c)) + b2(util.IsSubCA(c)) + b2(util.IsSubscriberCert(c))
+				fmt.Fprintln(wo, line)
+				fmt.Fprintln(wi, res)
+				rep.Evaluations++
+				rep.distinctKey(line + tag)
+				rep.count("caclass:" + res)
+				if util.IsCACert(c) != c.IsCA || util.IsSelfSigned(c) != c.SelfSigned {
+					rep.violate(Violation{"C04", "IsCACert / IsSelfSigned do not return the parsed fields", "caclass-fields", map[string]interface{}{"isCA": c.IsCA, "selfSigned": c.SelfSigned}})
+				}
+			}
+			emitRaw("struct", c)
+			spec := CertSpec{IsCA: ca, DNS: []string{"class.example.com"}}
+			if ss {
+				kitInit()
+				spec.SelfSignKey = kitCAKey
+			}
+			if der, err := BuildCert(spec); err == nil {
+				if pc, err := x509.ParseCertificate(der); err == nil {
+					if pc.IsCA == ca && pc.SelfSigned == ss {
+						emitRaw("parsed", pc)
+					} else {
+						rep.count("caclass:kit-mismatch")
+					}
+				}
+			}
+		}
+	}
 	// --- the walk
 	l := lint.GlobalRegistry().CertificateLints().ByName("e_cert_sig_alg_not_match_tbs_sig_alg")
 	if l == nil {
